@@ -92,16 +92,17 @@ DC = ["tie_dc_dt", "tie_dc_t_root", "tie_dc_Pidot", "tie_dc_sys_args", "tie_dc_q
 SMP = ["tie_get_DT_control_at", "tie_get_DT_at", "tie_offset_target", "tie_offset_ok", "tie_env_control", "tie_env_inner",
        "tie_env_integrator", "tie_env_root"]
 SHOOT = ["tie_ms_step", "tie_ss_step", "tie_gap_rows"]
-TIED = {"C01": {"Intg": INTG, "Shoot": SHOOT},
+LAYOUT = ["tie_layout_sites_agree", "tie_layout_order"]
+TIED = {"C01": {"Intg": INTG, "Shoot": SHOOT, "Layout": LAYOUT},
         "C04": {"Smp": SMP},
         "C07": {"Smp": SMP, "Shoot": ["tie_ms_step", "tie_ss_step"]},
-        "C09": {"Smp": ["tie_env_control", "tie_env_inner", "tie_env_integrator", "tie_env_root"]},
-        "C02": {"Dc": DC},
+        "C09": {"Smp": ["tie_env_control", "tie_env_inner", "tie_env_integrator", "tie_env_root"], "Layout": LAYOUT},
+        "C02": {"Dc": DC, "Layout": LAYOUT},
         "C03": {"Intg": INTG + ["tie_builtin"], "Dc": DC},
         "C05": {"Intg": INTG, "Dc": ["tie_dc_dt", "tie_dc_t_root", "tie_dc_sys_args", "tie_dc_quad"], "Shoot": ["tie_ms_step", "tie_ss_step"]},
         "C08": {"Intg": ["tie_intg_rk", "tie_intg_expl_euler"]}}
 TIE_SRC = {"Intg": "rockit/sampling_method.py", "Dc": "rockit/direct_collocation.py", "Smp": "rockit/sampling_method.py",
-           "Shoot": "rockit/multiple_shooting.py, rockit/single_shooting.py"}
+           "Shoot": "rockit/multiple_shooting.py, rockit/single_shooting.py", "Layout": "rockit/stage.py, rockit/sampling_method.py"}
 
 
 def check_ties(pid):
